@@ -317,7 +317,7 @@ class Ctx:
             self._declare_enums(sh)
             kind = "list" if p in c.get("list_params", ()) else "array"
             st.env[p] = fresh(sh, p, facts, kind)
-            if isinstance(st.env[p], Seq):
+            if isinstance(st.env[p], (Seq, DictV)):
                 st.env[p].root = p
         for g, shs in c.get("ghost_vars", {}).items():
             sh = parse_shape(shs)
@@ -458,6 +458,36 @@ def ground_apps(terms, prefix):
 
 
 _ext_cache = {}
+_nn_cache = {}
+
+
+def sum_nonneg(hyps, a):
+    key = (a.get_id(), hash(tuple(sorted(h.get_id() for h in hyps))))
+    if key in _nn_cache:
+        return _nn_cache[key]
+    res = None
+    try:
+        k = z3.Int(fresh_name("xk"))
+        zero = z3.IntVal(0) if a.sort() == z3.IntSort() else z3.RealVal(0)
+        rng = [k >= a.arg(1), k < a.arg(2)]
+        goal = z3.Select(a.arg(0), k) >= zero
+        defs = relevant_defs(list(hyps) + rng + [goal])
+        gi = ground_def_instances(list(hyps) + rng + [goal], defs) if defs else []
+        s = z3.Solver()
+        s.set("timeout", 700)
+        s.set("smt.mbqi", False)
+        s.add(*hyps)
+        s.add(*rng)
+        s.add(*gi)
+        s.add(*defs)
+        s.add(z3.Not(goal))
+        if hard_check(s, 700) == z3.unsat:
+            res = (a >= zero)
+    except z3.Z3Exception:
+        res = None
+    _nn_cache[key] = res
+    return res
+
 
 
 def sum_extensionality(hyps, a, b):
@@ -541,6 +571,11 @@ def spec_function_lemmas(hyps, goal, nonlinear=True):
             extra.extend(fs)
             new.extend(fs)
         frontier = [t for t in ground_apps(new, "Sum_") if t.get_id() not in done]
+    # a sum of non-negative terms is non-negative (provable by induction): side proof of the pointwise fact at a fresh index
+    for t in sums[:6]:
+        nn = sum_nonneg(hyps, t)
+        if nn is not None:
+            extra.append(nn)
     # extensionality: only between a sum that occurs in the goal and another sum with syntactically equal bounds
     goal_sums = {t.get_id() for t in ground_apps([goal], "Sum_")}
     tried = 0
@@ -551,8 +586,8 @@ def spec_function_lemmas(hyps, goal, nonlinear=True):
                 continue
             if a.get_id() not in goal_sums and b.get_id() not in goal_sums:
                 continue
-            if not (z3.simplify(a.arg(1) - b.arg(1)).eq(z3.IntVal(0)) and z3.simplify(a.arg(2) - b.arg(2)).eq(z3.IntVal(0))):
-                continue
+            if not z3.simplify(a.arg(1) - b.arg(1)).eq(z3.IntVal(0)):
+                continue        # (equal upper bounds may follow from the hypotheses: the side proof establishes them)
             if tried >= 8:
                 break
             tried += 1
@@ -1251,6 +1286,11 @@ class Eval:
         raise Unsupported("equality between %r and %r" % (a, b))
 
     def member(self, x, c):
+        if isinstance(c, Opt) and isinstance(c.val, DictV):
+            c = c.val
+        if isinstance(c, DictV):
+            from . import npmodel
+            return npmodel.dict_has(c, x)
         if isinstance(c, Seq):
             k = z3.Int(fresh_name("m"))
             return z3.Exists([k], z3.And(k >= 0, k < c.n, self.equal(c.at(k), x)))
@@ -1499,6 +1539,11 @@ class Eval:
         f = self.ev(n.func, st)
         return npmodel.call(self, f, n, st)
 
+    def ev_Dict(self, n, st):
+        if n.keys:
+            raise Unsupported("non-empty dict literal")
+        return DictV.empty()
+
     def ev_Lambda(self, n, st):
         return FnV(node=n, env=dict(st.env))
 
@@ -1731,6 +1776,8 @@ class Exec:
                     return
             if isinstance(base, DictV):
                 from . import npmodel
+                if base.root is not None and base.root not in self.ctx.contract.get("modifies", []):
+                    self.ev.need("frame: argument '%s' is not modified" % base.root, st, z3.BoolVal(False), node)
                 newd = npmodel.dict_set(self.ev, base, self.ev.ev(target.slice, st), v, st, node)
                 self.assign(base_node, newd, st, node)
                 return
